@@ -4,7 +4,7 @@ import ast
 import z3
 
 from .vals import (Val, PyList, PyDict, ExcVal, Callable_, Int, Bool, Str, Bytes, NoneT, NONE, TInt, TBool, TStr, TBytes,
-                   TNone, TRef, TOpt, TSet, TMap, TSeq, TTuple, TRec, TOpaque, mk_int, mk_bool, mk_str, mk_bytes, fresh,
+                   TNone, TRef, TOpt, TSet, TMap, TSeq, TTuple, TRec, TOpaque, TLSet, mk_int, mk_bool, mk_str, mk_bytes, fresh,
                    mk_none_opt, mk_some, opt_isnone, opt_inner, empty_set, empty_map, empty_seq, seq_unit, coerce, veq,
                    truth, ite_val, fresh_name)
 from .state import Unsupported, Raise, feasible
@@ -158,6 +158,10 @@ class ExprMixin:
     def to_str_term(self, v, st):
         if isinstance(v, Val) and isinstance(v.ty, TStr):
             return v.t
+        if isinstance(v, Val) and isinstance(v.ty, TOpt) and isinstance(v.ty.inner, TStr):
+            return z3.If(opt_isnone(v), z3.StringVal("None"), v.terms[1])
+        if isinstance(v, Val) and isinstance(v.ty, TNone):
+            return z3.StringVal("None")
         if isinstance(v, Val) and isinstance(v.ty, TInt):
             return z3.IntToStr(v.t)
         # str() of anything else: an unconstrained string (assumption: only used in messages)
@@ -264,6 +268,8 @@ class ExprMixin:
         ty = container.ty
         if isinstance(ty, TSet):
             return self._elem_guard(x, ty.elem, lambda t: z3.Select(container.t, t))
+        if isinstance(ty, TLSet):
+            return self._elem_guard(x, ty.elem, lambda t: z3.Select(container.terms[0], t))
         if isinstance(ty, TMap):
             return self._elem_guard(x, ty.key, lambda t: z3.Select(container.terms[0], t))
         if isinstance(ty, (TStr, TBytes)):
